@@ -188,6 +188,9 @@ def do_program(idx):
     res = {"idx": idx, "p": p, "status": "ok", "bad": [], "events": 0, "skip": [], "wall": 0.0}
     t = time.time()
     builds = build_all(d, p, thorough_ref=(not QUICK) or p["needs_go126"])
+    if any(v[0] == -999 for v in builds.values()):      # a build hit the wall-clock watchdog (overloaded machine): no verdict
+        res["status"] = "inconclusive"
+        return res
     if builds["go124"][0] != 0:
         res["status"] = "invalid"
         res["log"] = builds["go124"][1]
@@ -247,6 +250,8 @@ def confirm_reduced(idx, uids, tags, cfg):
     if rc != 0:
         return p, False, "reduced program rejected by go"
     rc, so, se = core.llgo_build(w, llgo, d, o2, tags=tags)
+    if rc == -999:
+        return p, False, "reduced build hit the watchdog"
     if rc != 0:
         return p, True, "llgo build failure:\n" + (so + se)[-1500:]
     a = Obs(core.run_prog([o1], timeout=120))
